@@ -179,6 +179,19 @@ impl AnchorContext {
         riid
     }
 
+    /// Returns the name a column has without generating one.
+    pub(crate) fn column_name(&self, cid: CId) -> Option<String> {
+        if let Some(name) = self.column_names.get(&cid) {
+            return Some(name.clone());
+        }
+        match self.column_decls.get(&cid) {
+            Some(ColumnDecl::RelationColumn(_, _, RelationColumn::Single(Some(name)))) => {
+                Some(name.clone())
+            }
+            _ => None,
+        }
+    }
+
     /// Returns the name of a column if it has been given a name already, or generates
     /// a new name for it and registers it in the AnchorContext's column_names HashMap.
     pub(crate) fn ensure_column_name(&mut self, cid: CId) -> Option<&String> {
